@@ -55,7 +55,7 @@ func HLayoutQuote() {
 		vObserve("rejected", p.b)
 		return
 	}
-	vSameDigest(vDigest(cA), vDigest(cB), "c08-quoting-changes-catalog")
+	vSameDigest(vDigestDeep(cA), vDigestDeep(cB), "c08-quoting-changes-catalog")
 	vReach("same-catalog")
 	vObserve("same", p.b)
 }
@@ -87,7 +87,7 @@ func HLayoutAnnotation() {
 		vObserve("rejected", a.b)
 		return
 	}
-	vSameDigest(vDigest(cA), vDigest(cB), "c08-annotation-style-changes-catalog")
+	vSameDigest(vDigestDeep(cA), vDigestDeep(cB), "c08-annotation-style-changes-catalog")
 	vReach("same-catalog")
 	vObserve("same", a.b)
 }
